@@ -232,6 +232,13 @@ Definition op_ordinary (op : crew_op) : bool :=
   forallb (fun u => negb (is_service (fst u))) (op_update op)
   && forallb (fun d => negb (is_service d)) (op_delete op).
 
+(** an update that names a service machine and carries no state changes nothing that a crew's user observes:
+    [SetMachine] keeps the service machine's own specification (sio/crew.go: the source is not resolved for these
+    ids, the timers keep their map, the captain gets a fresh copy of the same specification) *)
+Definition svc_noop (u : mid * mupd) : bool := is_service (fst u) && negb (is_some (u_state (snd u))).
+Definition strip_op (op : crew_op) : crew_op :=
+  mk_op (filter (fun u => negb (svc_noop u)) (op_update op)) (op_delete op).
+
 (** [DoOp]: updates (a Go map: distinct ids, order immaterial), then deletes *)
 Definition do_op (c : crew) (op : crew_op) : crew :=
   let c1 := fold_left (fun c u => set_machine c (fst u) (u_src (snd u)) (u_state (snd u))) (op_update op) c in
@@ -272,7 +279,7 @@ Definition present (c : crew) (msg : json) (m : mid) : outcome (crew * bool * op
     else match as_crew_op msg with
          | NotOp => Done (c, true, None)      (* since the repair of D56 a message that is no operation leaves no trace *)
          | BadOp => Unmodelled
-         | IsOp op => if op_ordinary op then Done (do_op c op, true, None) else Unmodelled
+         | IsOp op => if op_ordinary (strip_op op) then Done (do_op c (strip_op op), true, None) else Unmodelled
          end
   else if String.eqb m timers_id then
     Done (if tm_shape msg then mk_crew (machines c) (wedged c) (cache c) (previous c) true else c, true, None)
